@@ -111,6 +111,9 @@ func judge(c resplife.Case) *pbt.Verdict {
 	if r.Allocated != 0 || r.PendingAlloc != 0 {
 		return v.Failf("%d bytes still allocated (%d pending) for responses at the end", r.Allocated, r.PendingAlloc)
 	}
+	for p, missing := range r.ProbeMissing {
+		return v.Failf("state for retired requests is still held: a fresh, plain request from %s was not sent %d of the blocks it reaches (%v)", p, len(missing), missing)
+	}
 	if r.Hung {
 		v.Label("bubble-did-not-exit")
 	}
